@@ -113,6 +113,7 @@ static int child_body(const pt_t *p, int want_cycle, rng_t *rng)
 	return 0;
 }
 
+static unsigned g_alarm_s;
 static int run_point(const pt_t *p, int want_cycle, rng_t *rng, int in_child, int *sig)
 {
 	*sig = 0;
@@ -124,7 +125,7 @@ static int run_point(const pt_t *p, int want_cycle, rng_t *rng, int in_child, in
 #if !defined(OFH_ASAN)
 		struct rlimit rl = { 6ULL << 30, 6ULL << 30 }; setrlimit(RLIMIT_AS, &rl);
 #endif
-		alarm(g_run.thorough ? 120 : 60);
+		alarm(g_alarm_s ? g_alarm_s : 90);
 		signal(SIGALRM, SIG_DFL);
 		_exit(child_body(p, want_cycle, rng));
 	}
@@ -147,7 +148,13 @@ static void point(const pt_t *p, rng_t *rng)
 	int want_cycle = !nv && !big && p->role != OF_ENCODER;   /* the cycle uses its own encoder and decoder sessions */
 	int in_child = nv || big || (p->k + p->r) > 2000 || p->L > 4096;
 	int sig = 0; char key[200];
+	rng_t rng_copy = *rng;
 	int rc = run_point(p, want_cycle, rng, in_child, &sig);
+	if (rc == -1 && sig == SIGALRM) {
+		/* a wall-clock limit is never a verdict by itself: run the point once more with a generous limit */
+		rep_count("points_rerun_after_watchdog", 1);
+		g_alarm_s = 1200; rc = run_point(p, want_cycle, &rng_copy, in_child, &sig); g_alarm_s = 0;
+	}
 	if (rc == -1) {
 		const char *what = sig == SIGALRM ? "hang" : "crash";
 		if (nv) snprintf(key, sizeof key, "%s-outside:codec=%s:limit=%s", what, cn(p->codec), lim);
